@@ -435,7 +435,7 @@ func (c *suComp) Run(args []string) string {
 		c.pregate = map[string]bool{}
 		c.ca = &caComp{}
 		out := c.ca.Run(args)
-		c.srv, _ = subscribe.NewServer(c.ca.c, subscribe.WithTimeout(suTimeout), subscribe.WithACL(suACL{}))
+		c.srv, _ = subscribe.NewServer(c.ca.c, suServerOptions(args)...)
 		c.ca.c.SetClient(func(l *ctree.Leaf) {
 			c.ca.record(l)
 			c.srv.Update(l)
@@ -642,6 +642,31 @@ func (s *suSub) isDone() bool {
 
 // noACLServer: a second Server on the same cache without ACL, fed by the same callback.
 var suNoACL = map[*cache.Cache]*subscribe.Server{}
+
+// suServerOptions returns the options of the server under test in one of several equivalent spellings:
+// NewServer tolerates nil options (the usual way to make an option conditional) and the options are
+// independent of one another, so their order and any nil entries between them must not matter
+// (seeded change c07_seed7 stopped option processing at the first nil one, dropping WithACL).
+// The spelling is a function of the `new` line, so that a replay of the sequence uses the same one.
+func suServerOptions(args []string) []subscribe.Option {
+	h := 0
+	for _, a := range args {
+		for _, b := range []byte(a) {
+			h = h*31 + int(b)
+		}
+	}
+	to, acl := subscribe.WithTimeout(suTimeout), subscribe.WithACL(suACL{})
+	switch (h & 0x7fffffff) % 4 {
+	case 0:
+		return []subscribe.Option{to, acl}
+	case 1:
+		return []subscribe.Option{nil, to, acl}
+	case 2:
+		return []subscribe.Option{acl, nil, to}
+	default:
+		return []subscribe.Option{to, nil, acl, nil}
+	}
+}
 
 func (c *suComp) noACLServer() *subscribe.Server {
 	if s, ok := suNoACL[c.ca.c]; ok {
@@ -865,7 +890,7 @@ func (s *suGen) genSub(id string) {
 	// prefix origin / elements so that leaves with origin "oc" are reachable
 	switch r.Intn(5) {
 	case 0:
-		origin = "oc"
+		origin = g.org
 	case 1:
 		l := g.leaves[r.Intn(len(g.leaves))]
 		pfx = encPath(elemsToElement(l.elems[:r.Intn(len(l.elems)+1)]))
